@@ -4,4 +4,5 @@ CONSTANTS
   LeaveFix = TRUE
   MaxResets = 100
   Faults = TRUE
+  MaxProcs = 100
 CHECK_DEADLOCK FALSE
